@@ -115,7 +115,9 @@ def r2_post_init(chk: Check):
     # load_objects (instance branch)
     lo = tree.func("core.objects", "ConfigInformation.load_objects")
     gl = CFG(lo.node)
-    calls = [n for n, c in gl.call_nodes(lambda c: src(c) == "o.__post_init__()")]
+    rdl = ReachingDefs(gl)
+    calls = [n for n, c in gl.call_nodes(lambda c: tail(c) == "__post_init__" and isinstance(c.func, ast.Attribute) and not c.args)
+             if rdl.canon(c.func.value, n) == "objects[definition['id']]"]
     floops = [n for n in gl.live if n.kind == "for" and "fields" in src(n.ast.iter)]
     ok = len(calls) == 1 and len(floops) == 1 and any(gl.dominates(b, calls[0]) for b in gl.live if b.kind == "branch" and b.extra["test"] is floops[0] and b.extra["polarity"] == "done")
     ok = ok and any(src(t.ast) == "as_instance" and pol is True for t, pol in gl.guards(calls[0]) if t.kind == "test")
